@@ -374,4 +374,44 @@ theorem update_both_flags (cfg : Cfg) (fs : FS) (o : Path) (ho : cfg.output = so
   unfold run updateMainProg updateProg
   simp [execL, execS, Cond.eval, ho, hi]
 
+
+/-- the update reaches the dump and the dump fails (`get_state` raises): the temporary directory is created and
+removed again, and that is all -/
+theorem update_dump_fails (cfg : Cfg) (fs : FS) (d : Path) (h : WriteHyp cfg fs d) :
+    ∃ w, run updateMainProg updateProg { cfg with dumpable := false } fs = (w, .raised "dump") ∧
+      (∀ q, w.fs.read q = fs.read q) ∧ w.fs.dirs = fs.dirs := by
+  obtain ⟨hdest, hparts, hproto, hload, hdump, hpar, hnd, hfn, hfd, hff, huf, hud⟩ := h
+  have hguards := guards_pass { cfg with dumpable := false } fs d (by simpa [destOf] using hdest) hproto hload
+  unfold run updateMainProg
+  simp only [execL]
+  rw [updateProg_split, execL_append, hguards]
+  unfold updateWrite
+  simp only [execL, execS]
+  simp only [if_true, Option.map_some, resolve_parent cfg.cwd d hparts, tmp_path]
+  have hmk : doOps { fs := fs, output := some d, dest := some d } [Op.mkdir ((d.resolve cfg.cwd).dropLast ++ [cfg.fresh])]
+      = ({ fs := afterMkdir cfg fs d, trace := [Op.mkdir (tmpDirOf cfg d)], output := some d, dest := some d }, .next) := by
+    simp [doOps, step, hpar, hfd, hff, afterMkdir, tmpDirOf]
+  rw [hmk]
+  simp only [Bool.false_eq_true, if_false, doOps, step]
+  refine ⟨_, rfl, ?_, ?_⟩
+  · intro q
+    show (FS.mk _ ((afterMkdir cfg fs d).files.filter (fun e => !under (tmpDirOf cfg d) e.1))).read q = _
+    rw [read_filter _ (afterMkdir cfg fs d).files (fun r => !under (tmpDirOf cfg d) r)]
+    cases hu : under (tmpDirOf cfg d) q with
+    | true =>
+      simp only [Bool.not_true, Bool.false_eq_true, if_false]
+      exact (huf q hu).symm
+    | false => simp [afterMkdir, FS.read]
+  · simp only [afterMkdir, List.filter_cons]
+    have h0 : under ((d.resolve cfg.cwd).dropLast ++ [cfg.fresh]) (tmpDirOf cfg d) = true := by
+      have := under_append (tmpDirOf cfg d) []
+      simpa [tmpDirOf] using this
+    simp only [h0, Bool.not_true, Bool.false_eq_true, if_false]
+    apply List.filter_eq_self.mpr
+    intro q hq
+    have := hud q hq
+    simp [tmpDirOf] at this ⊢
+    exact this
+
+
 end Skops.Fs
